@@ -41,6 +41,7 @@ func New(prefix string) *Query {
 // Where adds filtering.
 func (q *Query) Where(condition Condition) *Query {
 	q.where = condition
+	q.checked = false
 	return q
 }
 
